@@ -49,7 +49,7 @@ def handle : Handler
         match gmp_primesieve n.toNat with
         | some (a, _) =>
             let v := multiswingArr a n.toNat
-            let ok := n > 30000 || v = mpz_2multiswing_1 n.toNat
+            let ok := n > 3000 || v = mpz_2multiswing_1 n.toNat
             some ([natTok v] ++ (if ok then [] else [.err "model-ne-spec"]))
         | none => some [.err "model-oob"]
       else none
